@@ -274,3 +274,220 @@ NAME_SCHEMES = {
                   "m1": "concat", "m2": "str_join", "m3": "l_0_b", "m4": "t_2", "m": "macro"},
     "nfkc": {"a": "ﬁ", "b": "fi", "c": "ſ", "p0": "s", "p1": "Ⅰ", "v": "ⅱ"},
 }
+
+
+# ---------------------------------------------------------------------------
+# inheritance hierarchies (C04)
+# ---------------------------------------------------------------------------
+
+BLOCKS = ["a", "b", "c", "d"]
+
+
+def _block_body(rnd, lvl, name, others, depth, in_root, used, allow_nested=True):
+    body = [J.Text(f"{name}{lvl}")]
+    for _ in range(rnd.randint(0, 3)):
+        r = rnd.random()
+        if r < 0.3:
+            body.append(J.Text("(")); body.append(J.Out(J.Call(N("super")))); body.append(J.Text(")"))
+        elif r < 0.4:
+            body.append(J.Text("<")); body.append(J.Out(J.Call(J.Getattr(N("super"), "super")))); body.append(J.Text(">"))
+        elif r < 0.55 and others:
+            body.append(J.Out(J.Call(J.Getattr(N("self"), rnd.choice(others)))))
+        elif r < 0.7:
+            body.append(J.Out(N(rnd.choice(["x", "y", "i"]))))
+        elif r < 0.8:
+            body.append(J.Set(rnd.choice(["x", "y"]), C(lvl * 10 + rnd.randint(1, 3))))
+        elif r < 0.92 and allow_nested and depth > 0:
+            free = [b for b in BLOCKS if b not in used]
+            if free:
+                nb = rnd.choice(free)
+                used.add(nb)
+                body.append(J.Block(nb, _block_body(rnd, lvl, nb, others, depth - 1, in_root, used)))
+        else:
+            body.append(J.Out(J.Filter(N("s"), rnd.choice(["e", "string", "default"]))))
+    return body
+
+
+def inherit_case(rnd, cid, auto=None):
+    depth = rnd.randint(1, 4)
+    names = [f"t{i}" for i in range(depth)]
+    tpls = {}
+    auto = rnd.random() < 0.5 if auto is None else auto
+    known = []          # block names defined so far along the chain
+    for lvl, tn in enumerate(names):
+        used = set()
+        body = []
+        is_root = lvl == 0
+        if not is_root:
+            parent = names[lvl - 1]
+            r = rnd.random()
+            if r < 0.7:
+                body.append(J.Extends(C(parent)))
+            elif r < 0.8:
+                body.append(J.Extends(N("parent_" + str(lvl))))          # dynamic extends
+            elif r < 0.9:
+                body.append(J.If([N("c")], [[J.Extends(C(parent))]]))    # conditional extends
+            else:
+                body.append(J.Extends(C(parent))); body.append(J.Extends(C(parent)))  # extended twice
+            if rnd.random() < 0.5:
+                body.append(J.Text("OUTSIDE"))
+            if rnd.random() < 0.5:
+                body.append(J.Set(rnd.choice(["x", "y"]), C(lvl)))
+        else:
+            body.append(J.Text("R["))
+            if rnd.random() < 0.4:
+                body.append(J.Set("x", C(0)))
+        nblocks = rnd.randint(1, 3)
+        cand = BLOCKS[:] if is_root else (known + [b for b in BLOCKS if b not in known][:1])
+        rnd.shuffle(cand)
+        for bn in cand[:nblocks]:
+            if bn in used:
+                continue
+            used.add(bn)
+            others = [b for b in set(known) | used if b != bn]
+            req = is_root and rnd.random() < 0.12
+            if req:
+                blk = J.Block(bn, [], required=True)
+            else:
+                blk = J.Block(bn, _block_body(rnd, lvl, bn, others, 1, is_root, used), scoped=False)
+            if is_root and rnd.random() < 0.25:
+                scoped = rnd.random() < 0.6
+                blk = dict(blk, scoped=scoped)
+                body.append(J.For(J.TName("i"), J.List([C(1), C(2)]), [blk, J.Text(",")]))
+            else:
+                body.append(blk)
+            if is_root:
+                body.append(J.Text("|"))
+        if is_root:
+            body.append(J.Text("]"))
+        elif rnd.random() < 0.3:
+            body.append(J.Text("TAIL"))
+        for bn in used:
+            if bn not in known:
+                known.append(bn)
+        tpls[tn] = J.template(body, auto)
+    datas = []
+    for _ in range(3):
+        d = {"s": rnd.choice([J.vstr(META), J.vstr("pl")]), "c": J.vbool(rnd.random() < 0.7)}
+        if rnd.random() < 0.5:
+            d["x"] = J.vint(7)
+        for lvl in range(1, depth):
+            d["parent_" + str(lvl)] = J.vstr(names[lvl - 1])
+        datas.append(d)
+    return J.make_case(cid, tpls, names[-1], datas)
+
+
+def inherit_cases(seed, n, start_id=1, auto=None):
+    rnd = random.Random(seed)
+    return [inherit_case(rnd, start_id + i, auto) for i in range(n)]
+
+
+# ---------------------------------------------------------------------------
+# include / import (C05)
+# ---------------------------------------------------------------------------
+
+def _target_template(rnd, name, others, depth=0):
+    """A template meant to be included / imported: macros, assignments (public and private),
+    reads of outer variables, maybe a nested import."""
+    body = [J.Text(f"[{name}:")]
+    vars_ = ["x", "i", "g", "loc", "w"]
+    for _ in range(rnd.randint(1, 4)):
+        r = rnd.random()
+        if r < 0.3:
+            body.append(J.Out(N(rnd.choice(vars_))))
+        elif r < 0.45:
+            nm = rnd.choice(["v", "_p", "x", "w2"])
+            body.append(J.Set(nm, rnd.choice([C(rnd.randint(1, 3)), N(rnd.choice(vars_))])))
+        elif r < 0.7:
+            nm = rnd.choice(["m", "_hid", "m2"])
+            mb = [J.Text(f"<{nm}>"), J.Out(N(rnd.choice(vars_ + ["p0"])))]
+            if rnd.random() < 0.3:
+                mb.append(J.Out(N("v")))
+            body.append(J.Macro(nm, ["p0"] if rnd.random() < 0.5 else [], [C(9)] if rnd.random() < 0.3 else [], mb)
+                        if True else None)
+            if body[-1]["defaults"] and not body[-1]["params"]:
+                body[-1]["defaults"] = []
+        elif r < 0.8 and others and depth < 2:
+            o = rnd.choice(others)
+            if rnd.random() < 0.5:
+                body.append(J.Import(C(o), "sub", with_context=rnd.random() < 0.4))
+                body.append(J.Out(J.Getattr(N("sub"), rnd.choice(["v", "m", "_p"]))))
+            else:
+                body.append(J.Include(C(o), with_context=rnd.random() < 0.6))
+        elif r < 0.9:
+            body.append(J.Out(J.Test(N(rnd.choice(vars_)), "defined")))
+        else:
+            body.append(J.Text("t"))
+    body.append(J.Text("]"))
+    return body
+
+
+def _use_site(rnd, tnames):
+    """One include/import statement (plus uses of what it binds)."""
+    t = rnd.choice(tnames)
+    r = rnd.random()
+    if r < 0.35:
+        e = rnd.choice([C(t), C(t), J.List([C("nope"), C(t)]), N("tplname"), J.List([C("nope1"), C("nope2")]),
+                        C("nope")])
+        return [J.Include(e, with_context=rnd.random() < 0.6, ignore_missing=rnd.random() < 0.4)]
+    if r < 0.7:
+        alias = rnd.choice(["mod", "mod", "_m"])
+        st = [J.Import(rnd.choice([C(t), C(t), N("tplname"), C("nope")]), alias, with_context=rnd.random() < 0.4)]
+        for _ in range(rnd.randint(1, 3)):
+            a = rnd.choice(["m", "m2", "v", "_p", "_hid", "x", "sub", "zz"])
+            if a in ("m", "m2", "_hid") and rnd.random() < 0.8:
+                st.append(J.Out(J.Call(J.Getattr(N(alias), a), [C(4)] if rnd.random() < 0.4 else [])))
+            else:
+                st.append(J.Out(J.Getattr(N(alias), a)))
+        if rnd.random() < 0.2:
+            st.append(J.Out(N(alias)))
+        return st
+    names = rnd.sample(["m", "m2", "v", "w2", "x", "zz"], rnd.randint(1, 2))
+    pairs = [(n, rnd.choice([n, "al_" + n.strip("_")])) for n in names]
+    st = [J.FromImport(rnd.choice([C(t), C(t), N("tplname")]), pairs, with_context=rnd.random() < 0.4)]
+    for n, a in pairs:
+        if n in ("m", "m2") and rnd.random() < 0.8:
+            st.append(J.Out(J.Call(N(a), [C(5)] if rnd.random() < 0.4 else [])))
+        else:
+            st.append(J.Out(N(a)))
+    return st
+
+
+def module_case(rnd, cid, auto=None):
+    auto = rnd.random() < 0.4 if auto is None else auto
+    tnames = ["inc", "lib", "aux"][: rnd.randint(1, 3)]
+    tpls = {}
+    for i, tn in enumerate(tnames):
+        tpls[tn] = J.template(_target_template(rnd, tn, tnames[i + 1:], 0), auto)
+    body = [J.Text("M:")]
+    if rnd.random() < 0.5:
+        body.append(J.Set("loc", C(1)))
+    for _ in range(rnd.randint(1, 3)):
+        site = _use_site(rnd, tnames)
+        r = rnd.random()
+        if r < 0.3:
+            body.append(J.For(J.TName("i"), J.List([C(1), C(2)]), site + [J.Text(";")]))
+        elif r < 0.45:
+            body.append(J.With([("w", C(8))], site))
+        elif r < 0.6:
+            body.append(J.Macro("outer", ["loc"], [], site))
+            body.append(J.Out(J.Call(N("outer"), [C(6)])))
+        elif r < 0.7:
+            body.append(J.If([N("c")], [site]))
+        else:
+            body.extend(site)
+    if rnd.random() < 0.3:
+        body.append(J.Out(N(rnd.choice(["v", "x", "m", "mod"]))))
+    tpls["main"] = J.template(body, auto)
+    datas = []
+    for _ in range(3):
+        d = {"c": J.vbool(rnd.random() < 0.7), "tplname": J.vstr(rnd.choice(tnames + ["nope"]))}
+        if rnd.random() < 0.7:
+            d["x"] = rnd.choice([J.vint(7), J.vstr(META)])
+        datas.append(d)
+    return J.make_case(cid, tpls, "main", datas, globals_={"g": J.vstr("G&")})
+
+
+def module_cases(seed, n, start_id=1, auto=None):
+    rnd = random.Random(seed)
+    return [module_case(rnd, start_id + i, auto) for i in range(n)]
